@@ -115,8 +115,20 @@ def mutate(d, rng, part=None, kind=None):
             v['zz_new'] = {'type': 'wifi', 'params': [], 'name': None}
         else:
             s = v[sid]
-            what = rng.choice(['name', 'type', 'param'])
-            if what == 'name':
+            what = rng.choice(['name', 'type', 'param', 'model'])
+            if what == 'model' and s['type'] in ('camera', 'depth') and s['params']:
+                # same identifier, name, sensor type and numbers: only the camera MODEL differs (same parameter count where
+                # another model has it, one more parameter otherwise)
+                same = {'PINHOLE': 'SIMPLE_RADIAL', 'SIMPLE_RADIAL': 'PINHOLE', 'RADIAL': 'FOV', 'FOV': 'RADIAL',
+                        'OPENCV': 'OPENCV_FISHEYE', 'OPENCV_FISHEYE': 'OPENCV'}
+                old = s['params'][0]
+                if old in same:
+                    s['params'] = [same[old]] + list(s['params'][1:])
+                elif old == 'SIMPLE_PINHOLE':
+                    s['params'] = ['PINHOLE'] + list(s['params'][1:4]) + [s['params'][3]] + list(s['params'][4:])
+                else:
+                    s['params'] = ['SIMPLE_PINHOLE'] + list(s['params'][1:3]) + ['500', '320', '240']
+            elif what == 'name':
                 s['name'] = (s['name'] or '') + '_x'
             elif what == 'type' and s['type'] not in ('camera', 'depth'):
                 s['type'] = 'odometry' if s['type'] != 'odometry' else 'wifi'
